@@ -100,7 +100,10 @@ def gen_cfg(rng, counting=None, small=True, allow_rate=True):
     cfg = Cfg(counting, capacity, bucket_size, max_swaps, finger_size, auto_expand, expansion_rate, "library_default", None)
     r = rng.random()
     if allow_rate and r < 0.15:
-        cfg.by_error_rate(rng.choice([3, 4, 5, 7, 9, 11, 12, 13, 17, 20, 31]))
+        # 33+ bits: wider than the 4-byte slot of the export format (such a filter works in memory; exporting it is refused with OverflowError
+        # as soon as a stored fingerprint does not fit)
+        # (plain filter only: the counting filter keeps fingerprint and count in 32-bit cells and cannot hold wider ones at all)
+        cfg.by_error_rate(rng.choice([3, 4, 5, 7, 9, 11, 12, 13, 17, 20, 31, 32] + ([] if counting else [33, 40, 43])))
     return cfg
 
 
@@ -260,11 +263,25 @@ def iter_history(ctx, P, cfg, keys, ops, scratch, oracle, on_new=None, stats=Non
             outcome = ("ok", None)
             stats["auto_expand_toggles"] += 1
         elif kind == "reload":
-            f = cfg.reload(P, f, op[1], scratch)
-            if on_new:
-                on_new(f)
+            if cfg.err_bits and cfg.err_bits > 32:
+                # fingerprints wider than the 4-byte slot of the format: the export is refused (OverflowError) as soon as a stored fingerprint
+                # does not fit.  If it goes through, what was loaded is looked at (monitors attached by on_new see it) but the history
+                # continues on the original: a loaded table has 32-bit cells and cannot take the wider fingerprints of later additions.
+                try:
+                    g = cfg.reload(P, f, op[1], scratch)
+                    if on_new:
+                        on_new(g)
+                    for k in keys:
+                        g.check(k)
+                    stats["wide_fingerprint_exports_loaded_and_inspected"] += 1
+                except OverflowError:
+                    stats["exports_refused_for_fingerprints_wider_than_the_slot"] += 1
+            else:
+                f = cfg.reload(P, f, op[1], scratch)
+                if on_new:
+                    on_new(f)
+                stats["reloads"] += 1
             outcome = ("ok", None)
-            stats["reloads"] += 1
         else:
             raise AssertionError(op)
         if f.capacity != cap_before:
